@@ -29,7 +29,7 @@ def run(run):
     proofs_ok = core.proof_stage(run, "Props/C03.v")
     tier_q = run.tier == "quick"
     g = stgen.G(run.rng)
-    n_st = 700 if tier_q else 12000
+    n_st = 700 if tier_q else 40000
     cases = [g.statement() for _ in range(n_st)] + [g.paren_case() for _ in range(n_st // 8)]
     dialects = ["MYSQL", "DEFAULT", "HIVE"]
     reqs = [sqlgen.parse_request("statements", dialects[i % 3], t) for i, (t, _) in enumerate(cases)]
